@@ -133,6 +133,30 @@ Theorem C34_queue :
 Proof. exact verifier_serves_all. Qed.
 Print Assumptions C34_queue.
 
+(* WithVerify(true) (verifier queue + verifier.verify, master or CDN data): a chunk that passes
+   verify IS the genuine window -- not corrupted, not truncated, not extended -- and a download in
+   which the windows of the hash list were served in queue order (C34_queue) and every chunk
+   passed verify is the WHOLE file. *)
+Theorem C34_verifier_chunk :
+  forall (sha : list Z -> list Z) (file : list Z) (W : list hwin),
+    (forall w, In w W -> w_hash w = sha (gen file w)) ->
+    (forall w V, In w W -> sha V = sha (gen file w) -> V = gen file w) ->
+    forall w data, In w W -> vq_verify sha w data = true -> data = gen file w.
+Proof. exact verified_chunk_genuine. Qed.
+Print Assumptions C34_verifier_chunk.
+
+Theorem C34_verifier_download :
+  forall (sha : list Z -> list Z) (file : list Z) (W : list hwin),
+    contig 0 W -> zlen file <= end_of 0 W ->
+    (forall w, In w W -> w_hash w = sha (gen file w)) ->
+    (forall w V, In w W -> sha V = sha (gen file w) -> V = gen file w) ->
+    forall chunks : list (hwin * list Z),
+      map fst chunks = W ->
+      Forall (fun c => vq_verify sha (fst c) (snd c) = true) chunks ->
+      concat (map snd chunks) = file.
+Proof. exact verified_download_is_file. Qed.
+Print Assumptions C34_verifier_download.
+
 (* non-vacuity of the plan theorem's hypotheses and a plan across two MiB boundaries *)
 Example C34_plan_example :
   build_plan (1048576 - 8192) (1048576 + 16384) =
